@@ -61,6 +61,20 @@ def probe(pytrs):
         out.append(sorted(P.trs_to_dict(s).items(), key=str))
         out.append(sorted(P.TRS.trs_to_dict(s).items(), key=str))
         out.append(P.Tract('x', trs=s).trs)
+    # existing objects pointed at another Twp/Rge/Sec (the setter consults the cache, or not, depending on its state)
+    t = P.TRS('154n97w14')
+    t.trs = '155n98w01'
+    out.append([t.trs, t.twp, t.rge, t.sec, t.twp_num, t.sec_num])
+    t = P.TRS()
+    r = t.set_twprgesec(154, 97, 14)
+    out.append([r, t.trs, t.twp, t.twp_num, t.sec_num, t.is_undef() if hasattr(t, 'is_undef') else None])
+    t.trs = '1s2e05'
+    out.append([t.trs, t.twp, t.rge_num])
+    tr = P.Tract('NE/4', trs='154n97w14')
+    tr.trs = '1s2e05'
+    out.append([tr.trs, tr.twp, tr.sec_num])
+    r = tr.set_twprgesec(7, 8, 9)
+    out.append([r, tr.trs, tr.twp, tr.rge, tr.sec])
     out.append(P.find_twprge('T154-R97 and T1S-R2', preprocess=True))
     out.append(P.find_twprge('T154N-R97W and T1S-R2E'))
     out.append(P.find_sec('Sec 1 - 3, 5'))
